@@ -638,6 +638,54 @@ def huge_vectors(chk, w2c2, root, quick):
                     chk.violation('C12:huge-vector:read:position', '%s: position afterwards %d, expected %d' % (what, pos, ncnt), files)
 
 
+def symlink_preopen(chk, plan, exe, root):
+    """A pre-open registered through a path whose last component is a symbolic link to the directory (e.g. /tmp on some systems): the
+    descriptor stands for the DIRECTORY (fstat semantics), whichever way the host keeps it (by path or by native descriptor)."""
+    for k, native in enumerate((False, True)):
+        d = os.path.join(root, 'symlink-preopen-%d' % k)
+        real = os.path.join(d, 'real')
+        os.makedirs(os.path.join(real, 'inner'))
+        open(os.path.join(real, 'x'), 'wb').write(b'0123456789')
+        via = os.path.join(d, 'via')
+        os.symlink('real', via)
+        st = os.stat(real)
+        g = wasih.Guest(plan, 4096)
+        g.instantiate(preopens=[via], native={0} if native else ())
+        g.poke(0x100, b'x')
+        checks = []
+        for abi in ('p1', 'un'):
+            g.poke(0x400, b'\x77' * 72)
+            i1 = g.call('fd_filestat_get', [3, 0x400], abi=abi)
+            d1 = g.dump(0x400, 72)
+            checks.append((abi, i1, d1))
+        g.poke(0x500, b'\x77' * 24)
+        i2 = g.call('fd_fdstat_get', [3, 0x500])
+        d2 = g.dump(0x500, 24)
+        i3 = g.call('path_open', [3, 0, 0x100, 1, 0, (1 << 1), 0, 0, 0x600])
+        script = g.script()
+        rr, out = wasih.run_script(exe, d, script)
+        files = {'script.txt': script, 'stderr.txt': rr.err.decode('latin-1')[-3000:], 'log.txt': '\n'.join(out)}
+        chk.ev(4)
+        chk.distinct(('symlink-preopen', native))
+        tag = 'native-descriptor' if native else 'by-path'
+        if rr.rc != 0 or len(out) <= i3:
+            chk.violation('C12:symlink-preopen:crash', 'pre-open through a symbolic link (%s): driver exit %s' % (tag, rr.rc), files)
+            continue
+        for abi, i1, d1 in checks:
+            raw = bytes.fromhex(out[d1].split(' ')[3])
+            ino = int.from_bytes(raw[8:16], 'little')
+            ft = raw[16]
+            if wasih.call_result(out[i1]) != 0 or ft != 3 or ino != st.st_ino:
+                chk.violation('C12:symlink-preopen:fd_filestat_get:%s' % ('preview1' if abi == 'p1' else 'unstable'),
+                              'fd_filestat_get on a pre-open registered through a symbolic link (%s): errno %s filetype %d inode %d; fstat of the directory gives filetype 3 (directory) inode %d' % (
+                                  tag, wasih.call_result(out[i1]), ft, ino, st.st_ino), files)
+        raw = bytes.fromhex(out[d2].split(' ')[3])
+        if wasih.call_result(out[i2]) != 0 or raw[0] != 3:
+            chk.violation('C12:symlink-preopen:fd_fdstat_get', 'fd_fdstat_get on a pre-open registered through a symbolic link (%s): errno %s filetype %d, expected directory' % (tag, wasih.call_result(out[i2]), raw[0]), files)
+        if wasih.call_result(out[i3]) != 0:
+            chk.violation('C12:symlink-preopen:path_open', 'path_open below a pre-open registered through a symbolic link (%s) fails with errno %s' % (tag, wasih.call_result(out[i3])), files)
+
+
 def main(chk):
     quick = chk.tier == 'quick'
     w2c2 = env.build_translator('plain')
@@ -768,6 +816,7 @@ def main(chk):
             chk.sample({'history': k, 'first_ops': [l[:100] for l in script.splitlines() if l.startswith('c ')][:6]})
     chk.observe('histories', nh, 'set')
     huge_vectors(chk, w2c2, root, quick)
+    symlink_preopen(chk, plan, exe, root)
     chk.assume('the POSIX twin runs on the same kernel and filesystem, so platform quirks are shared by model and implementation')
     chk.assume('rights sets always contain FD_READ and/or FD_WRITE and none of DATASYNC/ALLOCATE/FILESTAT_SET_SIZE/READDIR; O_TRUNC only with write access')
 
